@@ -226,6 +226,27 @@ def main(props, jobs=16):
     alpha = alpha + eqv + j2e
     if not alpha:
         print("ok   alpha-rename control: all checks silent on the tree with every Python local and template-local variable renamed; instance counts identical")
+    # rule coverage: every rule id that the checks register has a breaking variant expecting that very id (or is firing today as
+    # a listed known finding) - a rule nobody has ever seen fire is not trusted
+    uncovered = []
+    try:
+        known = {k["rule"] for k in json.loads((VERIF / "known_findings.json").read_text()).get("findings", []) if k.get("status") == "known"}
+    except Exception:
+        known = set()
+    expected = {r[0].get("expect") for r in results if r[0]["kind"] == "break" and r[1] == "OK"}
+    for pid in sorted({v["property"] for v in vs}):
+        try:
+            d = json.loads((VERIF / "evidence" / f"{pid}.json").read_text())
+            for rule in d["coverage"]["rules"]:
+                if rule not in expected and rule not in known:
+                    uncovered.append(rule)
+        except Exception:
+            pass
+    for r_ in uncovered:
+        print(f"FAIL rule coverage: no breaking variant makes {r_} fire")
+    if not uncovered:
+        print("ok   rule coverage: every registered rule id has a breaking variant that makes it fire (or fires today as a listed known finding)")
+    alpha = alpha + [f"uncovered rule {r_}" for r_ in uncovered]
     nb = sum(1 for r in results if r[0]["kind"] == "break")
     print(f"self-test: {len(results)} variants ({nb} breaking, {len(results) - nb} benign), {len(bad)} failed, {time.time() - t0:.1f}s")
     summary = {
